@@ -3,6 +3,8 @@ import SnaxVerif.Lemmas.Phs
 delivers nothing the kernel does not deliver). Core Lean only. -/
 namespace SnaxVerif.Phs
 
+variable [Variant]
+
 /-- the node-by-node correspondence between a kernel and the configured element -/
 def NodeMatch (A K : PE) (swv : Nat → Nat) : Prop :=
   ∀ (c : Nat) (k : Node), K.nodes[c]? = some k → ∃ (ai : Nat) (a : Node), A.nodes[ai]? = some a ∧ a.id = k.id ∧
